@@ -1,11 +1,13 @@
 """C08 - putting back what was taken restores the tree; accessors read back writes."""
-from contracts import k_docstr
+from contracts import k_docstr, k_cache
 from pyvc import native
 
 
 def run(rep, tier, seed):
     # the docstring encoder is the inverse of CPython's string-literal decoder (finite over code points + bounded combos)
     k_docstr.run(rep, 'C08', tier)
+    # the comment accessor splices text without offsetting: the parents' cached locations must be flushed right after
+    k_cache.flush_structural(rep, 'C08')
     sec = native.run('k_docstr', 'bounded_combinations', {'tier': tier}, timeout=3600)
     sec['native_entry'] = ('k_docstr', 'replay')
     rep.bounded(sec)
